@@ -646,8 +646,39 @@ fn emit_chunks(out: &mut String, name: &str, ty: &str, items: &[String]) {
     let _ = writeln!(out, "Definition {} : {} := {}.", name, ty, if parts.is_empty() { "[]".to_string() } else { parts.join(" ++ ") });
 }
 
+/// Judge the property itself on the real code: every line of the file is parsed as both policy types; an
+/// accepted text must print to a text that parses to an equal value (token dumps) and prints identically.
+fn rtfile(path: &str) {
+    let text = std::fs::read_to_string(path).unwrap_or_default();
+    for line in text.lines() {
+        for (ty, o) in [("concrete", observe_c(line)), ("semantic", observe_s(line))] {
+            let verdict = match (&o.0[..], &o.1) {
+                ([2, ..], _) => "FAIL panic".to_string(),
+                ([0, ..], Some(pr)) => {
+                    let o2 = if ty == "concrete" { observe_c(pr) } else { observe_s(pr) };
+                    if o2.0 != o.0 {
+                        format!("FAIL reparse-differs printed={:?} reparse={:?}", pr, &o2.0[..o2.0.len().min(12)])
+                    } else if o2.1.as_ref() != Some(pr) {
+                        format!("FAIL reprint-differs printed={:?} reprinted={:?}", pr, o2.1)
+                    } else {
+                        "OK".to_string()
+                    }
+                }
+                _ => "REJECTED".to_string(),
+            };
+            println!("POLRT {} {} {}", ty, verdict, line);
+        }
+    }
+}
+
 pub fn run(args: &[String]) {
     quiet_panics();
+    if args.first().map(|s| s.as_str()) == Some("rtfile") {
+        let path = args.get(1).cloned().unwrap_or_default();
+        let h = std::thread::Builder::new().stack_size(512 << 20).spawn(move || rtfile(&path)).expect("spawn");
+        let _ = h.join();
+        return;
+    }
     let seed: u64 = args.first().and_then(|s| s.parse().ok()).unwrap_or(1);
     let tier = args.get(1).map(|s| s.as_str()).unwrap_or("quick").to_string();
     // deep texts / values: run on a thread with a large stack
